@@ -86,6 +86,7 @@ int32_t jls_rd_open(struct jls_rd_s ** instance, const char * path) {
     if (rc && (rc != JLS_ERROR_TRUNCATED)) {
         goto exit;
     }
+    bool header_incomplete = (rc == JLS_ERROR_TRUNCATED);  // the length in the file header was never written
 
     GOE(jls_core_scan_initial(core));
     GOE(jls_core_scan_sources(core));
@@ -155,6 +156,16 @@ int32_t jls_rd_open(struct jls_rd_s ** instance, const char * path) {
         GOE(jls_raw_seek_end(core->raw));  // pointer repair may leave the position anywhere
         GOE(jls_core_wr_end(core));
         GOE(jls_raw_close(core->raw));
+        GOE(jls_raw_open(&core->raw, path, "r"));
+    } else if (header_incomplete) {
+        // the writer stopped after the END chunk but before it recorded the length: record it now
+        JLS_LOGW("file header length missing");
+        GOE(jls_raw_close(core->raw));
+        rc = jls_raw_open(&core->raw, path, "a");
+        if (rc && (rc != JLS_ERROR_TRUNCATED)) {
+            goto exit;
+        }
+        GOE(jls_raw_close(core->raw));  // closing a writable file writes its header
         GOE(jls_raw_open(&core->raw, path, "r"));
     }
 
